@@ -468,6 +468,14 @@ PROPS["C09"]["extra_tools"] = [{"tool": "tlapm", "file": "FlagsProof.tla",
                "has its flag on while training gradients are computed, all flags are off after learn returns (abstraction of the flag "
                "actions of Training.tla, inductive invariant proved with TLAPS)"}]
 PROPS["C09"]["technique"] += " + TLAPS proof of the flag discipline for unbounded depth (FlagsProof.tla)"
+_ORDER = {"tool": "tlapm", "file": "OrderProof.tla",
+          "theorem": "Ordered: for ANY group length, ANY number of workers and EVERY interleaving of task pick-up, completion and "
+                     "reduction, the results are added in index order, each exactly once, and nothing is added before its task has "
+                     "finished (abstraction of the group phase of Training.tla, inductive invariant proved with TLAPS)"}
+PROPS["C04"]["extra_tools"] = [_ORDER]
+PROPS["C05"]["extra_tools"] = [_ORDER]
+PROPS["C04"]["technique"] += " + TLAPS proof that the reduction of a group is the ordered sum for unbounded group length and workers (OrderProof.tla)"
+PROPS["C05"]["technique"] += " + TLAPS proof that the reduction of a group is the ordered sum for unbounded group length and workers (OrderProof.tla)"
 PROPS["C13"]["extra_tools"] = [{"tool": "apalache", "file": "EarlyStopApa.tla",
     "args": ["--cinit=ConstInit", "--inv=HistoriesOK", "--length=17"],
     "theorem": "HistoriesOK for ALL integer validation-loss trajectories (symbolic), budgets <= 8, tolerances <= 5, with and without validation"}]
